@@ -278,6 +278,15 @@ func (m *machine) indexAddr(x value, idxv value, ityp types.Type) value {
 	switch x := x.(type) {
 	case []value:
 		arr = x
+	case wordSliceV:
+		m.boundsCheck(idx, x.count)
+		i := 0
+		if idx.IsConst() {
+			i = int(idx.cval)
+		} else {
+			i = int(m.concretize(idx, "index"))
+		}
+		return wordPtrV{arr: x.arr, idx: x.idx + i*x.n, n: x.n}
 	case *value:
 		if x == nil {
 			m.rtPanic("invalid memory address or nil pointer dereference")
@@ -1156,6 +1165,8 @@ func (m *machine) callBuiltin(caller *frame, fn *ssa.Builtin, args []value, site
 			return c.BV(uint64(x.Len()), 64)
 		case []value:
 			return c.BV(uint64(len(x)), 64)
+		case wordSliceV:
+			return c.BV(uint64(x.count), 64)
 		case array:
 			return c.BV(uint64(len(x)), 64)
 		case *value:
@@ -1276,6 +1287,13 @@ func (m *machine) callBuiltin(caller *frame, fn *ssa.Builtin, args []value, site
 		m.registerArray(out, nil)
 		return &out[0]
 	case "Slice": // unsafe.Slice(ptr, len)
+		if wp, ok := args[0].(wordPtrV); ok {
+			n := m.concInt(args[1], "unsafe.Slice len")
+			if n < 0 || wp.idx+n*wp.n > len(wp.arr) {
+				m.unsupported("unsafe.Slice of words beyond the backing array at %s", m.where())
+			}
+			return wordSliceV{arr: wp.arr, idx: wp.idx, n: wp.n, count: n}
+		}
 		p := args[0].(*value)
 		n := m.concInt(args[1], "unsafe.Slice len")
 		if p == nil {
